@@ -4,6 +4,7 @@ From BVA Require Import Model.Core Model.Ops Model.Arith Model.Conv Model.Auto M
 From BVA Require Import Proofs.Common Proofs.Rechunk Proofs.Lift.
 From Coq Require Import ZifyBool ZifyN ZifyNat.
 From BVA Require Import Proofs.Pairings Proofs.ConvP Proofs.XEdit Proofs.XObs Proofs.FmtParse Proofs.Forms Proofs.Div.
+From BVA Require Proofs.Sink.
 
 (* The master theorem, part A: constructors and observers (operation codes 1..37).
    For every case inside the scope `case_okb`, what the model computes (`run_case`) satisfies
@@ -310,6 +311,21 @@ Proof.
   rewrite x_to_vec_spec by exact Hg. apply res_ok_SL.
 Qed.
 
+(* write into a bounded sink *)
+Lemma master_op_38 c : c_op c = 38 -> case_okb c = true -> prop_case c (run_case c) = true.
+Proof.
+  open_case c Hop Hok Hv Hk Ha.
+  apply andb_true_iff in Ha. destruct Ha as [Ha Hch]. apply N.leb_le in Hch.
+  one_operand c Hv Ha x Hg.
+  rewrite x_to_vec_spec by exact Hg. cbn [bind]. cbv beta.
+  set (bytes := match endian_of (arg c 0) with Little => bytes_le (abs x) | Big => rev (bytes_le (abs x)) end).
+  rewrite Sink.write_all_sink_spec by lia.
+  destruct (N.leb_spec (lenw bytes) (arg c 1)) as [Hle|Hgt].
+  - rewrite N.min_r by assumption. unfold lenw. rewrite Nat2N.id, firstn_all. cbn [app].
+    cbn [res_ok items_ok item_ok]. rewrite list_eqb_refl, N.eqb_refl. reflexivity.
+  - cbn [res_ok items_ok item_ok]. reflexivity.
+Qed.
+
 Lemma sbit_abs x i : Good x -> sbit (abs x) i = N.b2n (N.testbit (Lift.val x) i).
 Proof. intros Hg. unfold sbit. rewrite (abs_Good x Hg). reflexivity. Qed.
 
@@ -438,7 +454,7 @@ Qed.
 (* ------------------------------------------------------------------ assembly *)
 
 Definition ops_A : list N :=
-  [1;2;3;4;5;6;7;8;9;10;11;12;13;14;20;21;22;23;24;25;26;27;28;29;30;31;32;33;34;35;36;37].
+  [1;2;3;4;5;6;7;8;9;10;11;12;13;14;20;21;22;23;24;25;26;27;28;29;30;31;32;33;34;35;36;37;38].
 
 Theorem master_A c : In (c_op c) ops_A -> case_okb c = true -> prop_case c (run_case c) = true.
 Proof.
@@ -452,6 +468,6 @@ Proof.
                  | apply master_op_23 | apply master_op_24 | apply master_op_25 | apply master_op_26
                  | apply master_op_27 | apply master_op_28 | apply master_op_29 | apply master_op_30
                  | apply master_op_31 | apply master_op_32 | apply master_op_33 | apply master_op_34
-                 | apply master_op_35 | apply master_op_36 | apply master_op_37 ]|]).
+                 | apply master_op_35 | apply master_op_36 | apply master_op_37 | apply master_op_38 ]|]).
   contradiction.
 Qed.
